@@ -1,0 +1,116 @@
+//! Verification hook (compiled only with `--cfg midnight_zk_verif`): lets a test
+//! harness replace, consistently, the i-th advice value assigned through
+//! [`crate::circuit::Region::assign_advice`] during a synthesis, so that
+//! everything computed downstream from the returned `AssignedCell` uses the
+//! replacement ("a prover that lies consistently").
+
+use std::cell::RefCell;
+
+use ff::Field;
+
+/// A fault applied to a field element.
+#[derive(Clone, Debug, PartialEq, Eq)]
+pub enum Fault {
+    /// v + 1
+    Plus1,
+    /// v - 1
+    Minus1,
+    /// 0
+    Zero,
+    /// 1 - v
+    OneMinus,
+    /// v + 2^j
+    PlusPow2(u32),
+    /// v + a fixed odd constant
+    Random,
+}
+
+/// The plan of the current thread.
+#[derive(Clone, Debug, Default)]
+pub struct Plan {
+    /// Number of field-typed advice assignments seen since the last reset.
+    pub counter: usize,
+    /// Tamper the assignment with this index.
+    pub target: Option<(usize, Fault)>,
+    /// Record (index, column, offset) of every field-typed assignment.
+    pub log: Vec<(usize, usize, usize)>,
+    /// Whether recording is on.
+    pub recording: bool,
+}
+
+thread_local! {
+    /// Thread-local tamper plan.
+    pub static PLAN: RefCell<Plan> = RefCell::new(Plan::default());
+}
+
+/// Resets the counter and log, and installs `target`.
+pub fn reset(target: Option<(usize, Fault)>, recording: bool) {
+    PLAN.with(|p| {
+        *p.borrow_mut() = Plan {
+            counter: 0,
+            target,
+            log: vec![],
+            recording,
+        }
+    })
+}
+
+/// Takes the log of the current thread.
+pub fn take_log() -> (usize, Vec<(usize, usize, usize)>) {
+    PLAN.with(|p| {
+        let mut p = p.borrow_mut();
+        (p.counter, std::mem::take(&mut p.log))
+    })
+}
+
+fn apply<F: Field>(f: &Fault, v: F) -> F {
+    match f {
+        Fault::Plus1 => v + F::ONE,
+        Fault::Minus1 => v - F::ONE,
+        Fault::Zero => F::ZERO,
+        Fault::OneMinus => F::ONE - v,
+        Fault::PlusPow2(j) => {
+            let mut t = F::ONE;
+            for _ in 0..*j {
+                t = t.double();
+            }
+            v + t
+        }
+        Fault::Random => {
+            let mut t = F::ONE;
+            for i in 0..40 {
+                t = t.double();
+                if i % 3 == 0 {
+                    t += F::ONE;
+                }
+            }
+            v + t
+        }
+    }
+}
+
+/// Called from `Region::assign_advice` with the value about to be assigned.
+/// Acts only when the assigned type `VR` is the field type `F` itself.
+#[allow(unsafe_code)]
+pub fn on_assign<VR, F: Field>(value: &mut VR, column: usize, offset: usize) {
+    if std::any::type_name::<VR>() != std::any::type_name::<F>()
+        || std::mem::size_of::<VR>() != std::mem::size_of::<F>()
+    {
+        return;
+    }
+    PLAN.with(|p| {
+        let mut p = p.borrow_mut();
+        let idx = p.counter;
+        p.counter += 1;
+        if p.recording {
+            p.log.push((idx, column, offset));
+        }
+        if let Some((t, fault)) = &p.target {
+            if *t == idx {
+                // SAFETY: `VR` and `F` are the same type (checked above).
+                let v: &mut F = unsafe { &mut *(value as *mut VR as *mut F) };
+                *v = apply(fault, *v);
+            }
+        }
+    })
+}
